@@ -7,7 +7,7 @@ From Coq Require Import List NArith ZArith QArith Qabs Bool Arith Lia Permutatio
 Import ListNotations.
 From FP Require Import Lin Blocks BlocksProofs PathEnc Euler EulerProofs1 EulerProofs4 DagDecode PathEncProofs
                        PathEncComplete PathEncGivenComplete WfCheck CheckedInstances
-                       ErrEnc ErrEncProofs ErrEncProofs2 ErrEncProofs3 ErrEncComplete ErrEncOptimal ErrEncKlae ErrEncGiven
+                       ErrEnc ErrEncProofs ErrEncProofs2 ErrEncProofs3 ErrEncComplete ErrEncOptimal ErrEncKlae ErrEncGiven ErrEncGivenMpe
                        ErrEncChecked ErrEncExamples.
 Local Close Scope Q_scope.
 
@@ -170,3 +170,7 @@ Example C07_checked_nonvacuous :
   (forall b, sat b (encode_klae wit12) -> (objective wit12_a (encode_klae wit12) <= objective b (encode_klae wit12))%Q) /\
   (objective wit12_a (encode_klae wit12) == 1)%Q.
 Proof. exact klae_checked_nonvacuous. Qed.
+
+Example C07_given_example : sat (gasg wit_given [2%Q] wit_given_P) (encode_klae wit_given) /\
+                            (objective (gasg wit_given [2%Q] wit_given_P) (encode_klae wit_given) == 2)%Q.
+Proof. exact klae_given_example. Qed.
